@@ -40,6 +40,7 @@ import (
 	"github.com/hyperledger/aries-framework-go/pkg/didcomm/transport"
 	mockprovider "github.com/hyperledger/aries-framework-go/pkg/mock/provider"
 	mockvdr "github.com/hyperledger/aries-framework-go/pkg/mock/vdr"
+	"github.com/hyperledger/aries-framework-go/pkg/store/connection"
 	spilog "github.com/hyperledger/aries-framework-go/spi/log"
 	vdrspi "github.com/hyperledger/aries-framework-go/spi/vdr"
 
@@ -113,6 +114,8 @@ type pool struct {
 	meds map[int]*med
 	docs map[string]*did.Doc // DID documents handed out as the SAME object on every resolution (a caching VDR)
 	seqN int
+	// set by a SendToDID sender for the wrapOn call that follows
+	lastTodid *todidObs
 }
 
 func newPool() *pool {
@@ -643,19 +646,33 @@ func (p *pool) refs(c WrapCase) (rcptRefs, routeRefs []string) {
 }
 
 func (p *pool) newDispatcher(party int, enc, dflt string, cap *capT) *outbound.Dispatcher {
+	o, _ := p.newDispatcherL(party, enc, []string{dflt}, cap)
+
+	return o
+}
+
+// newDispatcherL: a dispatcher with a list of default profiles, and a connection recorder over the dispatcher's stores.
+func (p *pool) newDispatcherL(party int, enc string, dflts []string, cap *capT) (*outbound.Dispatcher, *connection.Recorder) {
 	pk, err := p.w.Parties[party].Packager(enc)
 	if err != nil {
 		panic(err)
 	}
 
-	o, err := outbound.NewOutbound(&obProv{&mockprovider.Provider{PackagerValue: pk, KMSValue: p.w.Parties[party].KMS,
+	prov := &mockprovider.Provider{PackagerValue: pk, KMSValue: p.w.Parties[party].KMS,
 		VDRegistryValue: p.vdr, StorageProviderValue: mem.NewProvider(), ProtocolStateStorageProviderValue: mem.NewProvider(),
-		MediaTypeProfilesValue: []string{dflt}}, []transport.OutboundTransport{cap}})
+		MediaTypeProfilesValue: dflts}
+
+	o, err := outbound.NewOutbound(&obProv{prov, []transport.OutboundTransport{cap}})
 	if err != nil {
 		panic(err)
 	}
 
-	return o
+	rec, err := connection.NewRecorder(prov)
+	if err != nil {
+		panic(err)
+	}
+
+	return o, rec
 }
 
 func (p *pool) newDest(c WrapCase) *service.Destination {
@@ -755,8 +772,11 @@ func (p *pool) wrapOn(kind string, c WrapCase, snd sender, caseJSON interface{},
 		senderName = sk.Name
 	}
 
+	p.lastTodid = nil
 	got, expect, sendErr, mutated := snd(c, pay, senderKey)
 	pay = expect
+	td := p.lastTodid
+	p.lastTodid = nil
 
 	sent := sendErr == nil && len(got) == 1
 
@@ -954,9 +974,14 @@ func (p *pool) wrapOn(kind string, c WrapCase, snd sender, caseJSON interface{},
 		acc = append(acc, coqMtp(a))
 	}
 
-	coq := fmt.Sprintf("CW {| w_accept := %s; w_default := %s; w_auth := %s; w_kt := %s; w_enc := %s; w_style := %s; "+
+	coqAuth := c.Auth
+	if td != nil {
+		coqAuth = true // SendToDID has the sender key at hand; whether it uses it is the model's to say
+	}
+
+	coq := fmt.Sprintf("CW {| w_todid := %s; w_accept := %s; w_default := %s; w_auth := %s; w_kt := %s; w_enc := %s; w_style := %s; "+
 		"w_spar := %s; w_payload := %d; w_sender := %d; w_rcpts := %s; w_routing := %s; w_sent := %s; w_levels := %s |}",
-		hx.CoqList(acc), coqMtp(c.dflt()), hx.CoqBool(c.Auth), coqKT(sk.KT), c.Enc, coqStyle(c.Style),
+		td.coq(), hx.CoqList(acc), coqMtp(c.dflt()), hx.CoqBool(coqAuth), coqKT(sk.KT), c.Enc, coqStyle(c.Style),
 		hx.CoqNList(p.partyKeys(sparty)), payID, senderName,
 		hx.CoqNList(rcptNames), hx.CoqList(hops), hx.CoqBool(sent), hx.CoqList(lvs))
 
@@ -1116,6 +1141,63 @@ type SeqCase struct {
 	Mode  string     `json:"mode"`
 	Dests []WrapCase `json:"dests"`
 	Sends []SeqSend  `json:"sends"`
+	// mode todid: the dispatcher's default media type profiles (first = the default) and, per destination, the
+	// connection record that exists before the first send (nil: none).  The destination's WrapCase.Accept is then the
+	// accept list of its DID document.
+	Defaults []string   `json:"defaults,omitempty"`
+	Conns    []*ConnPre `json:"conns,omitempty"`
+}
+
+// ConnPre is a connection record saved before the sends.
+type ConnPre struct {
+	Profiles    []string `json:"profiles"`
+	PeerInitial bool     `json:"peer_initial"`
+}
+
+// todidObs is what the harness read from the dispatcher's store around one SendToDID.
+type todidObs struct {
+	found, after *ConnPre
+	defaults     []string
+	v2msg        bool
+}
+
+func coqConn(c *ConnPre) string {
+	if c == nil {
+		return "None"
+	}
+
+	var ps []string
+	for _, x := range c.Profiles {
+		ps = append(ps, coqMtp(x))
+	}
+
+	return fmt.Sprintf("(Some (mkconn %s %s))", hx.CoqList(ps), hx.CoqBool(c.PeerInitial))
+}
+
+func (t *todidObs) coq() string {
+	if t == nil {
+		return "None"
+	}
+
+	var ds []string
+	for _, x := range t.defaults {
+		ds = append(ds, coqMtp(x))
+	}
+
+	return fmt.Sprintf("(Some {| td_found := %s; td_defaults := %s; td_v2msg := %s; td_after := %s |})",
+		coqConn(t.found), hx.CoqList(ds), hx.CoqBool(t.v2msg), coqConn(t.after))
+}
+
+// the four profiles for which SendToDID keeps the sender key although the own peer DID travels with the message
+// (stated here independently of the code's switch)
+func keepsSender(mtp string) bool {
+	switch mtp {
+	case transport.MediaTypeV1PlaintextPayload, transport.MediaTypeV1EncryptedEnvelope,
+		transport.MediaTypeRFC0019EncryptedEnvelope, transport.MediaTypeAIP2RFC0019Profile:
+		return true
+	}
+
+	return false
 }
 
 func docState(d *did.Doc) string {
@@ -1138,8 +1220,25 @@ func (p *pool) runSeq(kind string, sc SeqCase, tr *hx.Trace) {
 	p.seqN++
 	first := sc.Dests[0]
 	cap := &capT{}
-	o := p.newDispatcher(first.Sender.Party, first.Enc, first.dflt(), cap)
+	dflts := sc.Defaults
+	if len(dflts) == 0 {
+		dflts = []string{first.dflt()}
+	}
+
+	o, recorder := p.newDispatcherL(first.Sender.Party, first.Enc, dflts, cap)
 	snds := make([]sender, len(sc.Dests))
+	// the connection record the harness EXPECTS per destination (its own statement of getOrCreateConnection, for the
+	// direct oracle; the model gets the records read from the store)
+	expRec := make([]*ConnPre, len(sc.Dests))
+	readRec := func(myDID, theirDID string) *ConnPre {
+		r, e := recorder.GetConnectionRecordByDIDs(myDID, theirDID)
+		if e != nil {
+			return nil
+		}
+
+		return &ConnPre{Profiles: append([]string{}, r.MediaTypeProfiles...), PeerInitial: r.PeerDIDInitialState != ""}
+	}
+	myDIDOf := ""
 
 	switch sc.Mode {
 	case "todid":
@@ -1150,15 +1249,34 @@ func (p *pool) runSeq(kind string, sc SeqCase, tr *hx.Trace) {
 
 		defer delete(p.docs, myDID)
 
+		myDIDOf = myDID
+
 		for i, c := range sc.Dests {
 			theirDID := fmt.Sprintf("did:example:seqdest%d-%d", p.seqN, i)
 			rcptRefs, routeRefs := p.refs(c)
 			doc := &did.Doc{ID: theirDID, Service: []did.Service{{ID: theirDID + "#svc", Type: "did-communication",
 				ServiceEndpoint: commonmodel.NewDIDCommV1Endpoint("http://dest"), RecipientKeys: rcptRefs, RoutingKeys: routeRefs,
-				Accept: []string{c.Profile}}}}
+				Accept: append([]string{}, c.accept()...)}}}
 			p.docs[theirDID] = doc
 
 			defer delete(p.docs, theirDID)
+
+			if i < len(sc.Conns) && sc.Conns[i] != nil {
+				pre := sc.Conns[i]
+				state := ""
+
+				if pre.PeerInitial {
+					state = "eyJpbml0aWFsIjoic3RhdGUifQ"
+				}
+
+				if e := recorder.SaveConnectionRecord(&connection.Record{ConnectionID: fmt.Sprintf("seqconn%d-%d", p.seqN, i),
+					MyDID: myDID, TheirDID: theirDID, State: connection.StateNameCompleted, Namespace: connection.MyNSPrefix,
+					MediaTypeProfiles: append([]string{}, pre.Profiles...), PeerDIDInitialState: state}); e != nil {
+					panic(e)
+				}
+
+				expRec[i] = &ConnPre{Profiles: append([]string{}, pre.Profiles...), PeerInitial: pre.PeerInitial}
+			}
 
 			snds[i] = func(_ WrapCase, pay []byte, _ string) (got [][]byte, expect []byte, err error, mutated string) {
 				before := docState(doc)
@@ -1169,8 +1287,24 @@ func (p *pool) runSeq(kind string, sc SeqCase, tr *hx.Trace) {
 					panic(e)
 				}
 
+				obs := &todidObs{found: readRec(myDID, theirDID), defaults: dflts}
+				obs.v2msg, _ = service.IsDIDCommV2(&m)
+
+				// what the recipient must obtain: the message; when the own peer DID is shared, with the 'from' member
+				// naming it and its initial state; a DIDComm v2 message without 'from' gets the own DID
 				mm := m.Clone()
+				if obs.found != nil && obs.found.PeerInitial {
+					mm["from"] = myDID + "?initialState=eyJpbml0aWFsIjoic3RhdGUifQ"
+				} else if _, has := mm["from"]; obs.v2msg && !has {
+					mm["from"] = myDID
+				}
+
 				expect, _ = json.Marshal(&mm)
+
+				defer func() {
+					obs.after = readRec(myDID, theirDID)
+					p.lastTodid = obs
+				}()
 
 				func() {
 					defer func() {
@@ -1204,6 +1338,28 @@ func (p *pool) runSeq(kind string, sc SeqCase, tr *hx.Trace) {
 		c.PayClass, c.PaySeed, c.ViaMed = sd.PayClass, sd.PaySeed, false
 		nth := i
 
+		if sc.Mode == "todid" && myDIDOf != "" {
+			// the harness's own statement of SendToDID: the record of the pair (created on the first send: the sender's
+			// defaults for a v1 message, no profiles for a v2 message) decides the accept list and the packing mode
+			v2 := sd.PayClass == "v2"
+
+			if expRec[sd.Dest] == nil {
+				expRec[sd.Dest] = &ConnPre{}
+				if !v2 {
+					expRec[sd.Dest].Profiles = dflts
+				}
+			}
+
+			acc := c.accept()
+			if len(expRec[sd.Dest].Profiles) > 0 {
+				acc = expRec[sd.Dest].Profiles
+			}
+
+			c.Accept, c.Default = c.accept(), dflts[0]
+			c.Profile = effective(acc, dflts[0])
+			c.Auth = !(expRec[sd.Dest].PeerInitial && !keepsSender(c.Profile))
+		}
+
 		if nth > 2 {
 			nth = 2
 		}
@@ -1231,6 +1387,29 @@ func (p *pool) randSeq(r *hx.Rng) SeqCase {
 	base.Style = "didkey"
 	nd := 1 + r.Intn(3)
 
+	// profiles of the same packer family (the key type of a sequence is fixed)
+	var same []string
+
+	for _, n := range names {
+		if legacyFamily(n) == leg {
+			same = append(same, n)
+		}
+	}
+
+	pickList := func(min, max int) []string {
+		l := []string{}
+		for k := min + r.Intn(max-min+1); k > 0; k-- {
+			l = append(l, same[r.Intn(len(same))])
+		}
+
+		return l
+	}
+
+	if sc.Mode == "todid" {
+		// SendToDID: the dispatcher's defaults, the documents' accept lists and the connection records differ
+		sc.Defaults = pickList(1, 3)
+	}
+
 	for d := 0; d < nd; d++ {
 		c := base
 		c.Rcpts, c.Routing = nil, nil
@@ -1239,6 +1418,14 @@ func (p *pool) randSeq(r *hx.Rng) SeqCase {
 			// SendToDID: authcrypt with the first recipient key of the own document; the connection record's profiles
 			// (the dispatcher's defaults) replace the destination's; routing keys of the V1 service block
 			c.Auth, c.V2EP = true, false
+			c.Accept = pickList(1, 2)
+
+			var pre *ConnPre
+			if r.Bool() {
+				pre = &ConnPre{Profiles: pickList(0, 2), PeerInitial: r.Intn(3) == 0}
+			}
+
+			sc.Conns = append(sc.Conns, pre)
 		} else {
 			c.Auth, c.V2EP = r.Intn(3) == 0, r.Bool()
 
@@ -1278,6 +1465,10 @@ func (p *pool) randSeq(r *hx.Rng) SeqCase {
 
 	ns := 3 + r.Intn(4)
 	classes := []string{"small", "escapes", "fwdlike", "large"}
+
+	if sc.Mode == "todid" {
+		classes = append(classes, "v2") // a DIDComm v2 message: a new connection record gets no profiles
+	}
 
 	for i := 0; i < ns; i++ {
 		cl := classes[r.Intn(len(classes))]
